@@ -14,9 +14,9 @@ import (
 // ---------------------------------------------------------------- C10: FormatValue is total (deep and self-containing values)
 
 type deepCase struct {
-	Shape    string `json:"shape"` // deep | cyclic
-	Kinds    []string `json:"kinds"`
-	Siblings []int  `json:"siblings"` // per level: number of leaf siblings (0 = singleton level)
+	Shape    string    `json:"shape"` // deep | cyclic
+	Kinds    []string  `json:"kinds"`
+	Siblings []int     `json:"siblings"` // per level: number of leaf siblings (0 = singleton level)
 	V        model.Val `json:"value"`
 }
 
